@@ -296,7 +296,7 @@ func BuildConstraints(sel *Selection, params map[string][]string) error {
 			constraints.AddConstraint("fc.xfields", 10, 50, listSelector)
 		}
 	}
-	maxNode := MaxNode{Max: 10000}
+	maxNode := &MaxNode{Max: 10000}
 	if n, found := findIntParam(params, "fc.max-node-count"); found {
 		maxNode.Max = n
 	}
